@@ -892,7 +892,11 @@ impl Oracle {
                     let rm = self.conns[c].receive_max;
                     if self.conns[c].b_inflight > rm {
                         let excess = self.conns[c].b_inflight - rm;
-                        let ctx = if self.conns[c].b_rec_wait >= excess {
+                        let lowered = self.conns[..c].iter().any(|m| m.connack.is_some_and(|k| k.1 == 0) && m.receive_max > rm);
+                        let ctx = if replayed && lowered && self.conns[c].b_replayed_unacked == self.conns[c].b_inflight {
+                            // only retransmissions are in flight and the broker shrank its window since they were first sent
+                            "replay-exceeds-window-lowered-by-broker".to_string()
+                        } else if self.conns[c].b_rec_wait >= excess {
                             "awaiting-pubcomp".to_string()
                         } else if self.conns[c].b_replayed_unacked > 0 {
                             format!(
